@@ -77,6 +77,10 @@ def cases(tier):
         out.append(dict(kind='excel_eam', m=m, route='cfg'))
     for m in EK.big_models(True, tier)[::3]:
         out.append(dict(kind='excel_eam_fs', m=m, route='potable'))
+    for i, m in enumerate(EK.label_models(False, tier)):
+        up = EK.unordered_pairs(m['embed'])
+        m2 = dict(m, dip=[list(p) for p in EK.orient(up[::2], 1)], quad=[list(p) for p in EK.orient(up[1::2], 2)])
+        out.append(dict(kind='adp', m=m2, route=('cls', 'cfg', 'potable')[i % 3]))
     # ---- funcfl
     gl = [(2, 2), (3, 5), (5, 3), (6, 6), (11, 10), (10, 11), (101, 50), (16, 1001)]
     steps = [(0.5, 0.1), (0.01, 0.05), (1.0, 0.3), (0.1, 0.072)]
